@@ -100,6 +100,8 @@ impl Variant {
 }
 
 pub struct RunResult {
+    /// leaf (parameter) values after an optional GradientDescent::update
+    pub updated: Vec<(Vec<usize>, Vec<u64>)>,
     pub value_bits: Vec<(Vec<usize>, Vec<u64>)>,
     pub leaf_grads: Vec<Option<(Vec<usize>, Vec<u64>)>>,
     pub root_grad: Option<(Vec<usize>, Vec<u64>)>,
@@ -109,7 +111,7 @@ fn gbits(a: &Array) -> Option<(Vec<usize>, Vec<u64>)> {
     a.gradient().as_ref().map(|g| (g.dimensions().to_vec(), bits(g)))
 }
 
-pub fn run_variant(p: &Program, v: &Variant, seed: Option<(&[usize], &[f64])>) -> Result<RunResult, String> {
+pub fn run_variant(p: &Program, v: &Variant, seed: Option<(&[usize], &[f64])>, update: Option<f64>) -> Result<RunResult, String> {
     guard(|| {
         let n = p.nodes.len();
         let mut last_use = vec![usize::MAX; n];
@@ -214,7 +216,26 @@ pub fn run_variant(p: &Program, v: &Variant, seed: Option<(&[usize], &[f64])>) -
                 }
             })
             .collect();
-        RunResult { value_bits, leaf_grads, root_grad: gbits(&root_reader) }
+        let leaf_grads: Vec<Option<(Vec<usize>, Vec<u64>)>> = leaf_grads;
+        let root_grad = gbits(&root_reader);
+        // optionally step the tracked leaves with the optimizer: the outcome must not depend on which other handles
+        // (results, clones, fetched gradients) the program still holds
+        let mut updated = vec![];
+        if let Some(lr) = update {
+            // the plain program keeps everything it ever named, including gradients it fetched
+            let kept_grads: Vec<Option<Array>> = if v.n_drops() == 0 {
+                leaves.iter().map(|l| h[*l].as_ref().and_then(|a| a.gradient().as_ref().map(|g| g.clone()))).collect()
+            } else {
+                vec![]
+            };
+            let mut params: Vec<Array> = leaves.iter().filter_map(|l| h[*l].take()).collect();
+            let gd = corgi::optimizer::gd::GradientDescent::new(lr as corgi::numbers::Float);
+            corgi::optimizer::Optimizer::update(&gd, params.iter_mut().collect());
+            updated = params.iter().map(|a| (a.dimensions().to_vec(), bits(a))).collect();
+            drop(kept_grads);
+        }
+        drop(root_reader);
+        RunResult { updated, value_bits, leaf_grads, root_grad }
     })
 }
 
@@ -229,7 +250,11 @@ pub fn run_case(ctx: &mut Ctx, fam: &str, k: u64, r: &mut Rng) {
     let n = crate::refmodel::numel(&od);
     let seedv: Option<Vec<f64>> = if r.chance(1, 3) { None } else { Some((0..n).map(|_| r.int(-3, 3)).collect()) };
     let seed = seedv.as_ref().map(|s| (&od[..], &s[..]));
-    let base = match run_variant(&p, &Variant::plain(&p), seed) {
+    let update: Option<f64> = if r.chance(1, 2) { Some(*r.pick(&[1.0, 0.5, 2.0])) } else { None };
+    if update.is_some() {
+        ctx.count("cases_with_optimizer_update", 1);
+    }
+    let base = match run_variant(&p, &Variant::plain(&p), seed, update) {
         Ok(b) => b,
         Err(m) => {
             ctx.case(&p.desc(), false);
@@ -250,7 +275,7 @@ pub fn run_case(ctx: &mut Ctx, fam: &str, k: u64, r: &mut Rng) {
         }
         ctx.hist("pass_from", &v.pass_from.to_string());
         ctx.hist("read_via", &v.read_via.to_string());
-        match run_variant(&p, &v, seed) {
+        match run_variant(&p, &v, seed, update) {
             Err(m) => ctx.violation(
                 &format!("C12|{}|variant-panic:{}", fam, panic_class(&m)),
                 format!("variant {} panicked: {} (the plain run did not)\nprogram: {}", v.mask(), m, p.pretty()),
@@ -270,6 +295,9 @@ pub fn run_case(ctx: &mut Ctx, fam: &str, k: u64, r: &mut Rng) {
                         );
                         break;
                     }
+                }
+                if res.updated != base.updated {
+                    ctx.violation(&format!("C12|{}|updated-parameters-differ", fam), format!("variant {}: parameters after GradientDescent::update differ from the plain run\nprogram: {}", v.mask(), p.pretty()));
                 }
                 if res.root_grad != base.root_grad {
                     ctx.violation(&format!("C12|{}|root-gradient-differs", fam), format!("variant {}: root gradient differs from the plain run\nprogram: {}", v.mask(), p.pretty()));
